@@ -106,18 +106,57 @@ def ev(self, e: ast.AST, st: State) -> Term:
         return a if a is b else mk("phi", c, a, b)
     if t is ast.Tuple:
         elts = []
+        parts = []
+        unknown = False
         for x in e.elts:
             if isinstance(x, ast.Starred):
                 v = self.ev(x.value, st)
                 items = self.iter_items(v, st)
                 if items is None:
-                    raise Unsupported("starred symbolic iterable at %d" % e.lineno)
-                elts.extend(items)
+                    unknown = True
+                    parts.append(("extend", v))
+                else:
+                    elts.extend(items)
+                    parts += [("append", i_) for i_ in items]
             else:
-                elts.append(self.ev(x, st))
+                v = self.ev(x, st)
+                elts.append(v)
+                parts.append(("append", v))
+        if unknown:
+            # (a, *xs) with items of xs not known one by one: a sequence built from a followed by the items of xs (kept as a list object)
+            r = self.new_obj(st, "list")
+            o = self.obj(st, r)
+            o.exact = False
+            o.items = [(v_, st.ctx, how_) for how_, v_ in parts]
+            return r
         if all(is_const(x) for x in elts):
             return C(tuple(cval(x) for x in elts))
         return mk("tuple", tuple(elts))
+    if t is ast.List and any(isinstance(x, ast.Starred) for x in e.elts):
+        # [a, *xs, b] with an iterable whose items are not known one by one: a list built by appending a, extending by xs, appending b
+        parts = [(x, self.ev(x.value if isinstance(x, ast.Starred) else x, st)) for x in e.elts]
+        if any(isinstance(x, ast.Starred) and self.iter_items(v, st) is None for x, v in parts):
+            r = self.new_obj(st, "list")
+            o = self.obj(st, r)
+            o.exact = False
+            o.items = []
+            for x, v in parts:
+                if isinstance(x, ast.Starred):
+                    its = self.iter_items(v, st)
+                    if its is not None:
+                        o.items += [(i_, st.ctx, "append") for i_ in its]
+                    else:
+                        o.items.append((v, st.ctx, "extend"))
+                else:
+                    o.items.append((v, st.ctx, "append"))
+            return r
+        elts = []
+        for x, v in parts:
+            if isinstance(x, ast.Starred):
+                elts.extend(self.iter_items(v, st))
+            else:
+                elts.append(v)
+        return self.new_list(st, elts)
     if t is ast.List:
         elts = []
         for x in e.elts:
@@ -330,6 +369,77 @@ def lookup_global(self, m: ModuleInfo, name: str, st: State, node=None) -> Term:
                         return cls_t
                 except (NotConst, RecursionError, TypeError):
                     pass
+        if isinstance(expr, ast.Call) and isinstance(expr.func, (ast.Name, ast.Attribute)):
+            # NAME = SomeDataclass(<constants / class names>) at module level: an immutable record of its fields
+            tgt_c = self.prog.resolve_expr_static(rm, expr.func)
+            if isinstance(tgt_c, ClassInfo):
+                from .models import bind_dataclass, dataclass_fields
+
+                dcf = dataclass_fields(tgt_c)
+                if dcf is not None and tgt_c.lookup("__post_init__") is None:
+                    def const_arg(x_):
+                        t_ = self.prog.resolve_expr_static(rm, x_) if isinstance(x_, (ast.Name, ast.Attribute)) else None
+                        if isinstance(t_, ClassInfo):
+                            return mk("class", t_.qualname)
+                        if isinstance(t_, FuncInfo):
+                            return self.fterm(t_)
+                        return self.lift(self.prog.fold(rm, x_))
+
+                    try:
+                        a_ = [const_arg(x_) for x_ in expr.args]
+                        k_ = {kw.arg: const_arg(kw.value) for kw in expr.keywords if kw.arg is not None}
+                        vals = bind_dataclass(self, tgt_c, dcf, a_, k_, st, node) if len(k_) == len(expr.keywords) and not any(isinstance(x_, ast.Starred) for x_ in expr.args) else None
+                    except (NotConst, RecursionError, TypeError):
+                        vals = None
+                    if vals is not None:
+                        return mk("record", tgt_c.qualname, tuple((n_, vals[n_]) for n_, _ in dcf))
+        if isinstance(expr, ast.Tuple) and expr.elts:
+            # NAME = ((lshift, 8), (rshift, 4)): a constant tuple of constants, library functions and such tuples
+            def static_item(x_):
+                if isinstance(x_, ast.Tuple):
+                    its_ = [static_item(y_) for y_ in x_.elts]
+                    return None if any(i_ is None for i_ in its_) else mk("tuple", tuple(its_))
+                if isinstance(x_, ast.Constant):
+                    return C(x_.value)
+                if isinstance(x_, (ast.Name, ast.Attribute)):
+                    fd_ = _dotted(x_)
+                    if not fd_:
+                        return None
+                    rb_ = self.prog.resolve_symbol(rm, fd_.split(".")[0])
+                    if isinstance(rb_, tuple) and rb_[0] == "external":
+                        return mk("ext", rb_[1] + fd_[len(fd_.split(".")[0]):])
+                    t_ = self.prog.resolve_expr_static(rm, x_)
+                    if isinstance(t_, FuncInfo):
+                        return self.fterm(t_)
+                    if isinstance(t_, ClassInfo):
+                        return mk("class", t_.qualname)
+                    try:
+                        return self.lift(self.prog.fold(rm, x_))
+                    except (NotConst, RecursionError):
+                        return None
+                return None
+
+            if any(isinstance(x_, (ast.Tuple, ast.Name, ast.Attribute)) for x_ in expr.elts):
+                try:
+                    self.prog.fold(rm, expr)
+                    foldable = True
+                except (NotConst, RecursionError):
+                    foldable = False
+                if not foldable:
+                    si_ = static_item(expr)
+                    if si_ is not None:
+                        return si_
+        if isinstance(expr, (ast.Tuple, ast.List)) and expr.elts and all(isinstance(x_, ast.Call) and not x_.keywords and x_.args and all(isinstance(a_, ast.Constant) for a_ in x_.args) for x_ in expr.elts):
+            # NAME = (methodcaller("x"), methodcaller("y")): a constant tuple of operator-module accessors
+            outs = []
+            for x_ in expr.elts:
+                fd = _dotted(x_.func)
+                rb_ = self.prog.resolve_symbol(rm, fd.split(".")[0]) if fd else None
+                full = (rb_[1] + fd[len(fd.split(".")[0]):]) if isinstance(rb_, tuple) and rb_[0] == "external" else None
+                if full in ("operator.methodcaller", "operator.attrgetter", "operator.itemgetter"):
+                    outs.append(mk("opcaller", full.split(".")[1], tuple(C(a_.value) for a_ in x_.args)))
+            if len(outs) == len(expr.elts):
+                return mk("tuple", tuple(outs))
         tgt = self.prog.resolve_expr_static(rm, expr) if isinstance(expr, (ast.Name, ast.Attribute)) else None
         if isinstance(tgt, FuncInfo):
             return self.fterm(tgt)
@@ -388,6 +498,19 @@ def _class_of(self, qual) -> Optional[ClassInfo]:
 
 def get_attr(self, base: Term, name: str, st: State, node=None) -> Term:
     op = base.op
+    if op == "record":
+        for n_, v_ in base.args[1]:
+            if n_ == name:
+                return v_
+        c_ = self.prog.classes.get(base.args[0])
+        r_ = c_.lookup(name) if c_ is not None else None
+        if r_ is not None and isinstance(r_[1], FuncInfo):
+            self.fis[id(r_[1].node)] = r_[1]
+            if r_[1].kind == "property":
+                return self.call_function(r_[1], [base], {}, st, node, self_term=base)
+            if r_[1].kind == "staticmethod":
+                return self.fterm(r_[1])
+            return mk("bound", r_[1].qualname, id(r_[1].node), base if r_[1].kind != "classmethod" else mk("class", c_.qualname))
     if op == "tuple" and base.uid in self.nt_fields:
         idx = {f.index(name) for f in self.nt_fields[base.uid] if name in f}
         if len(idx) == 1:
@@ -572,6 +695,16 @@ def _class_attr_value(self, owner: ClassInfo, name: str, expr, st: State) -> Ter
         return self.lift(v, owner.qualname + "." + name)
     except (NotConst, RecursionError):
         pass
+    if isinstance(expr, ast.Call) and len(expr.args) == 1 and not expr.keywords and isinstance(expr.args[0], ast.Constant) and isinstance(expr.func, (ast.Name, ast.Attribute)):
+        # NAME = struct.Struct("<constant format>") in a class body
+        fd = _dotted(expr.func)
+        rb_ = self.prog.resolve_symbol(owner.module, fd.split(".")[0]) if fd else None
+        full = (rb_[1] + fd[len(fd.split(".")[0]):]) if isinstance(rb_, tuple) and rb_[0] == "external" else None
+        if full == "struct.Struct":
+            from .models import struct_layout
+
+            if struct_layout(expr.args[0].value) is not None:
+                return mk("structobj", expr.args[0].value)
     if isinstance(expr, ast.DictComp) or isinstance(expr, ast.Dict):
         v = self._static_dispatch_table(owner, expr)
         if v is not None:
@@ -839,9 +972,17 @@ def compare(self, op: str, l: Term, r: Term, st: State, node=None) -> Term:
         if op in ("Is", "Eq"):
             return TRUE
         return FALSE
-    if op in ("Eq", "NotEq") and l.op == "tuple" and r.op == "tuple" and 1 <= len(l.args[0]) == len(r.args[0]) <= 8:
+    def _tuple_items(t_):
+        if t_.op == "tuple":
+            return list(t_.args[0])
+        if is_const(t_) and isinstance(cval(t_), tuple) and all(isinstance(x_, (int, str, bytes, bool, type(None))) for x_ in cval(t_)):
+            return [C(x_) for x_ in cval(t_)]
+        return None
+
+    li_, ri_ = (_tuple_items(l), _tuple_items(r)) if op in ("Eq", "NotEq") and (l.op == "tuple" or r.op == "tuple") else (None, None)
+    if li_ is not None and ri_ is not None and 1 <= len(li_) == len(ri_) <= 8:
         # tuples of the same length are equal iff they are equal item by item
-        parts = [self.compare("Eq", a_, b_, st, node) for a_, b_ in zip(l.args[0], r.args[0])]
+        parts = [self.compare("Eq", a_, b_, st, node) for a_, b_ in zip(li_, ri_)]
         if any(is_const(p_) and not cval(p_) for p_ in parts):
             conj = FALSE
         else:
@@ -1025,6 +1166,15 @@ def call(self, fn: Term, args: List[Term], kwargs: Dict[str, Term], st: State, n
             return self.instantiate(c, args, kwargs, st, node)
     if op == "partial":
         return self.call(fn.args[0], list(fn.args[1]) + list(args), {**dict(fn.args[2]), **kwargs}, st, node)
+    if op == "opcaller" and len(args) == 1 and not kwargs:
+        # operator.methodcaller("m", *a)(x) is x.m(*a); attrgetter("a")(x) is x.a; itemgetter(i)(x) is x[i]
+        kind, a_ = fn.args[0], fn.args[1]
+        if kind == "methodcaller" and isinstance(cval(a_[0]), str):
+            return self.mcall(args[0], cval(a_[0]), list(a_[1:]), st, node)
+        if kind == "attrgetter" and len(a_) == 1 and isinstance(cval(a_[0]), str) and "." not in cval(a_[0]):
+            return self.get_attr(args[0], cval(a_[0]), st, node)
+        if kind == "itemgetter" and len(a_) == 1:
+            return self.do_subscript(args[0], a_[0], None, st, node)
     if op in ("phi", "or"):
         # call through a merged callable (`f or g` selects one of its operands): try each under a choice frame
         results = []
